@@ -162,7 +162,9 @@ def Eli.code : Eli → Nat
   | .cleanup => Mhd.Gen.Susp.eliCleanup
 
 structure Conn where
-  plan : Plan := {}
+  plan : Plan := {}             -- the application's script for the request being processed
+  later : List Plan := []       -- keep-alive: scripts for the requests that follow on this connection
+  done : List Plan := []        -- ghost: scripts of the requests already completed (oldest first)
   st : St := .recvHead
   inbox : List Sym := []        -- in the socket, not yet received
   sent : List Sym := []         -- ghost: everything the client has sent so far
@@ -196,6 +198,9 @@ structure Conn where
   inEready : Bool := false
   fault : Option String := none
   deriving DecidableEq, Repr
+
+/-- all the scripts of the connection, in request order (constant over the life of the connection) -/
+def Conn.script (k : Conn) : List Plan := k.done ++ k.plan :: k.later
 
 def Conn.chunkedUp (k : Conn) : Bool := k.plan.body == .chunked
 def Conn.chunkedReply (k : Conn) : Bool := k.plan.rkind == .cbUnknown
@@ -426,6 +431,24 @@ def stBodyUnready (g : Guards) (k : Conn) : Conn × List CEv × Bool :=
     let r := tryReadyNormal g k
     if r.2.2 then ({ r.1 with st := .bodyReady }, r.2.1, false) else (r.1, r.2.1, false)
 
+/-- FULL_REPLY_SENT: `connection_reset (connection, reuse)`.  With keep-alive (`reuse`) the request
+    and reply records are zeroed (`memset (&c->rq, 0, …)`, `memset (&c->rp, 0, …)`), the write buffer
+    is dropped, the bytes already in the read buffer — read-ahead of a pipelined request — are
+    preserved, `state = MHD_CONNECTION_INIT`, `event_loop_info = READ / PROCESS` by
+    `read_buffer_offset`, and the loop `continue`s: the buffered next request is processed in the
+    same MHD_connection_handle_idle call.  `suspended`, `resuming` and the epoll bits are connection
+    state and survive.  The model leaves the last scripted request in `finished` (= INIT with no
+    script left). -/
+def nextRequest (k : Conn) : Conn × List CEv × Bool :=
+  match k.later with
+  | [] => ({ k with st := .finished }, [.completed], true)
+  | p :: ps =>
+    ({ k with plan := p, later := ps, done := k.done ++ [k.plan], st := .recvHead,
+              remaining := 0, chunkSize := 0, chunkOff := 0, lastSeen := false, spp := false,
+              haveResp := false, rwp := 0, winStart := 0, winSize := 0, wpend := [], eos := false,
+              eli := if k.rbuf.isEmpty then .read else .process,
+              nfirst := 0, nupload := 0, nfinal := 0, nreader := 0 }, [.completed], true)
+
 /-- one pass of the `switch (connection->state)`; the Bool says `continue` (true) or `break` -/
 def idleStep (g : Guards) (k : Conn) : Conn × List CEv × Bool :=
   match k.st with
@@ -441,7 +464,7 @@ def idleStep (g : Guards) (k : Conn) : Conn × List CEv × Bool :=
   | .bodyReady => (k, [], false)
   | .bodySent => ({ k with st := .footersSending }, [], true)
   | .footersSending => (k, [], false)
-  | .replySent => ({ k with st := .finished }, [.completed], true)
+  | .replySent => nextRequest k
   | .finished => (k, [], false)
 
 /-- `while (! connection->suspended) { switch … }` -/
